@@ -47,6 +47,16 @@ def check(ctx):
     # (MIRROR types each function against its opposite-colour twin as if both saw finished tables; that premise is this rule)
     from props.C14 import r6 as _members
     _members(ctx, p, rule='C13.R0.members-built-first')
+    # ... and nothing the evaluation reaches keeps state between evaluations (a remembered evaluator, a static scratch value): the
+    # two colours would be scored depending on what was scored before (C14.R0)
+    from rules.common import SubCtx as _SC14
+    from props.C14 import r0 as _r0
+    sub14 = _SC14(ctx)
+    _r0(sub14, p)
+    bad14 = [r for r in sub14.results if not r[2] and r[0] == 'C14.R0.no-hidden-state']
+    ctx.ob('C13.R0.no-hidden-state', 'PositionScorer::score', not bad14,
+           'nothing reachable from the evaluation writes a variable that outlives it (C14.R0)%s'
+           % ('' if not bad14 else ' — ' + '; '.join('%s at %s' % (r[1], r[4]) for r in bad14[:3])), site=bad14[0][4] if bad14 else 'engine/score.cpp')
 
     # ---- R1 endgame evaluators ----------------------------------------------------------------------------------------
     evals = [f for f in p.funcs.values() if f.name.endswith('::strongSideScore') and f.ctargs and f.body is not None]
